@@ -1934,12 +1934,8 @@ private theorem synthAB_provisos : SynthProvisos fragView fragA fragEquivariance
     · exact b1
     · exact b2
 
-/-- non-vacuity of `synth_analysis_no_equations` / `synth_correct_no_equations` on `A`, `B` -/
-example : WF opA ∧ WF opB ∧ synth realNames [77, 78] true opA opB [] = synthAB ∧
-    (∀ m trM, mergeWith realNames [77, 78] opA opB = some (m, trM) → NoCopies m) ∧
-    SynthProvisos fragView fragA fragEquivariance realNames [77, 78] opA opB mergedAB.1 ∧
-    FullyCorrect fragA (fragView.store opA) ∧ FullyCorrect fragA (fragView.store opB) := by
-  refine ⟨by unfold WF; decide, by unfold WF; decide, by decide, ?_, synthAB_provisos, by decide, by decide⟩
+private theorem synthAB_nocopies :
+    ∀ m trM, mergeWith realNames [77, 78] opA opB = some (m, trM) → NoCopies m := by
   intro m trM hm
   have e : some (m, trM) = some mergedAB := by rw [← hm]; decide
   simp only [Option.some.injEq] at e
@@ -1947,6 +1943,18 @@ example : WF opA ∧ WF opB ∧ synth realNames [77, 78] true opA opB [] = synth
   unfold NoCopies
   decide
 
+/-- non-vacuity of `synth_analysis_no_equations` / `synth_correct_no_equations` on `A`, `B` -/
+example : WF opA ∧ WF opB ∧ synth realNames [77, 78] true opA opB [] = synthAB ∧
+    (∀ m trM, mergeWith realNames [77, 78] opA opB = some (m, trM) → NoCopies m) ∧
+    SynthProvisos fragView fragA fragEquivariance realNames [77, 78] opA opB mergedAB.1 ∧
+    FullyCorrect fragA (fragView.store opA) ∧ FullyCorrect fragA (fragView.store opB) :=
+  ⟨by unfold WF; decide, by unfold WF; decide, by decide, synthAB_nocopies, synthAB_provisos, by decide, by decide⟩
+
+example : FullyCorrect fragA (fragView.store mergedAB.1) :=
+  synth_correct_no_equations fragA_lawful fragA_contentOnly fragEquivariance fragView fragView_compatible
+    (g := realNames) (freshs := [77, 78]) (semOk := true) (op1 := opA) (op2 := opB)
+    (tr1 := [(1, 1), (2, 2)]) (tr2 := [(1, 77), (2, 78)]) (by unfold WF; decide) (by unfold WF; decide)
+    (by decide) synthAB_nocopies synthAB_provisos (by decide) (by decide)
 
 /-! ### stage 3: identification (`Equate`, and the duplicate removal that follows it)
 
